@@ -139,11 +139,15 @@ impl ParameterConverter {
         "Parameter '{}' has no schema, defaulting to String",
         param.name
       ));
-      let field = FieldDef::builder()
+      let mut field = FieldDef::builder()
         .name(FieldNameToken::from_raw(&param.name))
         .parameter(param, location)
         .rust_type(TypeRef::new("String").with_option())
         .build();
+      // a query member goes out under the parameter's own name, also when the parameter has no `schema`
+      if location == ParameterLocation::Query {
+        field = field.with_serde_attributes(true, param.style);
+      }
       return Ok((field, vec![]));
     };
 
